@@ -11,7 +11,7 @@ def profile(st):
 
 CHECK = FutureReplacementCheck(
     profile=profile,
-    tiers={'quick': 600, 'thorough': 60_000},
+    tiers={'quick': 600, 'thorough': 30_000},
     rule=('one seed -> a session A (1-2 symbols, trading tf 1m-15m, extra data routes, spot/futures, warm-up on/off, step or fast '
           'simulator), a cut minute t (fast: on a trading-candle boundary) and a session B = same head + another tail from t on '
           '(other regime, level shift/gap at the cut, other length >= 1), executed in two forked grandchildren under identical keyed '
